@@ -43,8 +43,26 @@ type pool struct {
 	ejected map[string]bool
 }
 
+// poolWeights: the statement's affinity and remapping clauses are about which backend a client address
+// maps to and say nothing of weights, so they hold whatever weights the operator configured. Half of
+// the pool sizes (per strategy) carry non-uniform weights - the shipped helios.yaml's 5/2/1, or 1/3.
+func poolWeights(strategy string, n int) []int {
+	ws := lab.Ones(n)
+	switch (n + len(strategy)) % 4 {
+	case 2:
+		for i := range ws {
+			ws[i] = []int{5, 2, 1}[i%3]
+		}
+	case 3:
+		for i := range ws {
+			ws[i] = []int{1, 3}[i%2]
+		}
+	}
+	return ws
+}
+
 func newPool(strategy string, n int) (*pool, error) {
-	lb, err := loadbalancer.NewLoadBalancer(lab.BaseConfig(strategy, lab.Ones(n)))
+	lb, err := loadbalancer.NewLoadBalancer(lab.BaseConfig(strategy, poolWeights(strategy, n)))
 	if err != nil {
 		return nil, err
 	}
@@ -59,7 +77,7 @@ func newPool(strategy string, n int) (*pool, error) {
 // appendBackend adds one backend at the end of the pool (what the admin API's add does).
 func (p *pool) appendBackend() (string, error) {
 	name := lab.BackendName(p.nextID)
-	if err := p.lb.AddBackend(config.BackendConfig{Name: name, Address: "http://" + lab.BackendHost(p.nextID), Weight: 1}); err != nil {
+	if err := p.lb.AddBackend(config.BackendConfig{Name: name, Address: "http://" + lab.BackendHost(p.nextID), Weight: 1 + p.nextID%3}); err != nil {
 		return "", err
 	}
 	p.nextID++
